@@ -284,11 +284,21 @@ pub struct F {
     plain_opt: Option<String>,
     #[arg(long, num_args = 0..=1, default_missing_value = "auto", default_value = "never")]
     when: String,
+    /// optional-optional with a default: the matches always hold something for it
+    #[arg(long, default_value = "oodef")]
+    ood: Option<Option<String>>,
 }
 impl Corpus for F {
-    const NAME: &'static str = "F(default_value_t,default_values_t,default_missing,rename_all=snake)";
+    const NAME: &'static str = "F(default_value_t,default_values_t,default_missing,Option<Option<T>>+default,rename_all=snake)";
     fn extract(m: &ArgMatches) -> Self {
-        F { n_value: one(m, "n_value").unwrap(), ns: many(m, "ns"), s: one(m, "s").unwrap(), plain_opt: one(m, "plain_opt"), when: one(m, "when").unwrap() }
+        F {
+            n_value: one(m, "n_value").unwrap(),
+            ns: many(m, "ns"),
+            s: one(m, "s").unwrap(),
+            plain_opt: one(m, "plain_opt"),
+            when: one(m, "when").unwrap(),
+            ood: if m.contains_id("ood") { Some(one(m, "ood")) } else { None },
+        }
     }
     fn pieces(&self) -> Vec<(&'static str, Vec<String>)> {
         vec![
@@ -297,10 +307,18 @@ impl Corpus for F {
             ("s", vec!["--s".into(), self.s.clone()]),
             ("plain_opt", self.plain_opt.iter().flat_map(|x| ["--plain_opt".to_string(), x.clone()]).collect()),
             ("when", vec![format!("--when={}", self.when)]),
+            (
+                "ood",
+                match &self.ood {
+                    None => vec![],
+                    Some(None) => vec!["--ood".into()],
+                    Some(Some(v)) => vec![format!("--ood={}", v)],
+                },
+            ),
         ]
     }
     fn arbitrary(rng: &mut Rng) -> Self {
-        F { n_value: rng.below(100) as i32 - 50, ns: vecn(rng, 1, 3, |r| r.below(10) as i32), s: word(rng), plain_opt: opt(rng, word), when: word(rng) }
+        F { n_value: rng.below(100) as i32 - 50, ns: vecn(rng, 1, 3, |r| r.below(10) as i32), s: word(rng), plain_opt: opt(rng, word), when: word(rng), ood: Some(opt(rng, word)) }
     }
     fn fields(&self) -> Vec<(&'static str, String)> {
         vec![
@@ -309,6 +327,7 @@ impl Corpus for F {
             ("s", format!("{:?}", self.s)),
             ("plain_opt", format!("{:?}", self.plain_opt)),
             ("when", format!("{:?}", self.when)),
+            ("ood", format!("{:?}", self.ood)),
         ]
     }
 }
